@@ -68,6 +68,9 @@ type Conn struct {
 	closed bool
 	rr     int
 	OnSend func(dest string, body []byte) error
+	// FailAcks makes every Ack fail (a broker that rejects acknowledgements, e.g. for a
+	// subscription in auto-ack mode).
+	FailAcks bool
 }
 
 type Subscription struct {
@@ -154,6 +157,10 @@ func (c *Conn) Deliver(dest, contentType string, body []byte) {
 
 func (c *Conn) Ack(m *Message) error {
 	vsched.Yield()
+	if c.FailAcks {
+		// rejected acknowledgements leave no trace on the connection, so they commute
+		return errors.New("stomp: ack rejected")
+	}
 	c.obj.Write()
 	if c.closed {
 		return ErrClosedUnexpectedly
